@@ -4,30 +4,31 @@
   per operation on stdout; `skip` for streams that have no model (those lines are not compared).
   Imports model and driver files only (no Mathlib), so it links as a native executable.
 -/
-import EG.Driver.C01
-import EG.Driver.C02
-import EG.Driver.C03
-import EG.Driver.C04
-import EG.Driver.C05
-import EG.Driver.C06
-import EG.Driver.C07
-import EG.Driver.C08
-import EG.Driver.C09
-import EG.Driver.C10
-import EG.Driver.C11
-import EG.Driver.C12
-import EG.Driver.C13
-import EG.Driver.C14
-import EG.Driver.C15
-import EG.Driver.C16
-import EG.Driver.C17
-import EG.Driver.C18
-import EG.Driver.C19
-import EG.Driver.C20
+import EG.Driver.Rect
+import EG.Driver.Raw
+import EG.Driver.Fb
+import EG.Driver.Image
+import EG.Driver.Color
+import EG.Driver.Conv
+import EG.Driver.Adapters
+import EG.Driver.Line
+import EG.Driver.Thick
+import EG.Driver.Poly
+import EG.Driver.Tri
+import EG.Driver.Mock
+import EG.Driver.Font
+import EG.Driver.Text
+import EG.Driver.Circle
+import EG.Driver.Ellipse
+import EG.Driver.Rrect
+import EG.Driver.Sector
+import EG.Driver.Styled
+import EG.Driver.Faults
+import EG.Driver.Scale
 open EG.Driver
 
 def handlers : List (String → Toks → Option String) := [
-  c01, c02, c03, c04, c05, c06, c07, c08, c09, c10, c11, c12, c13, c14, c15, c16, c17, c18, c19, c20]
+  handleRect, handleRaw, handleFb, handleImage, handleColor, handleConv, handleAdapters, handleLine, handleThick, handlePoly, handleTri, handleMock, handleFont, handleText, handleCircle, handleEllipse, handleRrect, handleSector, handleStyled, handleFaults, handleScale]
 
 def handle (line : String) : String :=
   match toks line with
